@@ -154,8 +154,11 @@ def check_torus(ctx, drv, cfgs, dist):
                     ctx.fail("torus-route", "torus %s route %d->%d is %s, verified algorithm gives %s: %s" % (
                         "x".join(map(str, dims)), s, t, r[2] if r[0] == "R" else r, exp, why), c2)
                 else:
-                    ctx.mismatch("K-torus", "route %d->%d in torus %s differs from the model but is still a dimension-ordered "
-                                 "shortest-way walk: impl %s model %s" % (s, t, dims, r[2], exp), c2)
+                    # harmless: a different but still dimension-ordered shortest-way walk (tie broken the other way)
+                    dist["torus_harmless_differences"] = dist.get("torus_harmless_differences", 0) + 1
+                    if len(ctx.notes) < 5:
+                        ctx.notes.append("route %d->%d in torus %s differs from the modelled code but satisfies the property "
+                                         "(oracle): impl %s model %s" % (s, t, dims, r[2], exp))
 
 
 # ----------------------------------------------------------------------------------------------- star
